@@ -29,6 +29,20 @@ var EmptyResultSetError = errors.New("empty result set")
 var DataEmpty = errors.New("data empty")
 
 func EncodeView(ctx context.Context, fp io.Writer, view *View, options option.ExportOptions, palette *color.Palette) (string, error) {
+	// The record writers pass on what they have buffered while they go: a table that is refused at a later record
+	// (a value the format or the encoding cannot spell) must not leave its first records in the output.
+	buf := new(bytes.Buffer)
+	warn, err := encodeView(ctx, buf, view, options, palette)
+	if err != nil {
+		return warn, err
+	}
+	if _, e := fp.Write(buf.Bytes()); e != nil {
+		return warn, NewSystemError(e.Error())
+	}
+	return warn, nil
+}
+
+func encodeView(ctx context.Context, fp io.Writer, view *View, options option.ExportOptions, palette *color.Palette) (string, error) {
 	switch options.Format {
 	case option.FIXED:
 		return "", encodeFixedLengthFormat(ctx, fp, view, options)
